@@ -137,7 +137,7 @@ impl<'a, C: 'a+BezierCurve> BezierCurve for CurveSection<'a, C> {
                 // Curve from t_min to 1 is in (p, wnn2, wn3, w4), we need to subdivide again
                 // Ie, we've removed the section of the curve from 0-t_min here and now need to remove t_max to 1. We're subdividing the curve t_min to 1, so the t_max value is relative to that curve rather than the source.
                 let (w1, w2, w3)    = (p, wnn2, wn3);
-                let t_max           = self.t_m/(1.0-self.t_c);
+                let t_max           = if self.t_c >= 1.0 { 0.0 } else { self.t_m/(1.0-self.t_c) };
 
                 // Weights (from de casteljau)
                 let wn1 = w1*(1.0-t_max) + w2*t_max;
